@@ -99,7 +99,8 @@ impl<'arena> Diagnostics<'arena> {
     /// Report all collected diagnostics to the terminal with rich formatting.
     pub fn report(&self, src: &str, filename: &str) {
         let ansi = self.render_ansi(src, filename);
-        print!("{ansi}");
+        // Not `print!`, which panics when stdout is closed or full
+        let _ = std::io::Write::write_all(&mut std::io::stdout(), ansi.as_bytes());
     }
 
     /// Check if there are any error-level diagnostics
